@@ -653,9 +653,14 @@ func (x *Expander) declareGlob(s *gen.LStmt, cur *gObj) {
 		appliedObj: map[*gObj]bool{}, appliedEdge: map[*gEdge]bool{}, appliedPair: map[[2]*gObj]bool{}}
 	x.info.Globs++
 	for _, o := range x.active {
-		if o.scope == cur && gen.LRender([]*gen.LStmt{o.stmt}) == gen.LRender([]*gen.LStmt{s}) {
-			// d2 identifies glob declarations by key equality within a block: a repeated
-			// identical declaration shares the first one's "applied" set
+		if o.scope != cur || o.stmt.Head() != s.Head() {
+			continue
+		}
+		emptyMap := func(t *gen.LStmt) bool { return t.Val == nil && len(t.Body) == 0 }
+		if gen.LRender([]*gen.LStmt{o.stmt}) == gen.LRender([]*gen.LStmt{s}) || emptyMap(o.stmt) || emptyMap(s) {
+			// d2 identifies glob declarations by key equality within a block (d2ast.Key.Equals,
+			// which also treats an empty map as equal to any map): a repeated declaration shares
+			// the first one's "applied" set
 			x.feat("identical_glob_declaration_repeated")
 		}
 	}
@@ -761,6 +766,14 @@ func (x *Expander) deleteObj(o *gObj) {
 		}
 		if len(g.appliedObj) > 0 || len(g.appliedPair) > 0 {
 			x.feat("object_deleted_while_glob_active")
+		}
+	}
+	for _, g := range x.closed {
+		for pr := range g.appliedPair {
+			if in[pr[0]] || in[pr[1]] {
+				// the glob's block is closed, but the connection it created is still there
+				x.feat("object_deleted_while_glob_active")
+			}
 		}
 	}
 	for _, e := range o.board.edges {
